@@ -364,10 +364,9 @@ def _run_chunk_file(args):
     r = tlc.run("Trace_Samples", "Trace.cfg", workers=1, env={"TRACE_FILE": path}, tag=os.path.basename(path))
     done = None
     fails = []
+    for v in tlaval.printed_values(r.out, "FAIL"):
+        fails.append((v[1], sorted(v[2]["__set__"])))
     for line in r.out.splitlines():
-        m = tlc.FAIL_RE.match(line)
-        if m:
-            fails.append((int(m.group(1)), tlc._parse_set(m.group(2))))
         m = tlc.DONE_RE.match(line)
         if m:
             done = int(m.group(1))
@@ -421,7 +420,9 @@ def sum_to_json(s):
 def split_fail(clauses):
     path = [c for c in clauses if c.startswith("path=")]
     rest = [c for c in clauses if not c.startswith("path=")]
-    return (path[0] if path else "path=?"), rest
+    if len(path) != 1 or not rest:
+        raise tlc.MachineryError("FAIL lines without exactly one path tag: %s" % (clauses,))
+    return path[0], rest
 
 
 def judge(rec, chk, replay_of):
@@ -469,7 +470,7 @@ def judge(rec, chk, replay_of):
                          replay_of(meta, clauses))
                 nfail += 1
         else:
-            for c in clauses:
+            for c in [c for c in clauses if c != "prod"]:
                 key = "%s:%s:%s" % (ev["kind"], ev["fmt"], ("error=" + ev["raised"]) if c == "prod_error" else c)
                 chk.fail(key, "%s_samples sizes=%s: clause %s fails" % (ev["kind"], meta["sizes"], c), replay_of(meta, clauses))
                 nfail += 1
